@@ -19,11 +19,13 @@ UNIVERSE = [("d", "a"), ("f", "a/x.log"), ("f", "a/b.txt"), ("d", "a/b"), ("f", 
             ("f", "x.log"), ("f", "b.txt"), ("f", "a.txt"), ("f", "ab"), ("f", "ba"), ("f", "log"), ("f", ".hidden"), ("d", ".hd"),
             ("f", ".hd/x.log"), ("f", "a b"), ("d", "a b2"), ("f", "a b2/q"), ("f", "üx"), ("d", "日本"), ("f", "日本/ü.log"),
             ("f", "lo--g"), ("f", "aa"), ("d", "aa2"), ("f", "aa2/a"), ("f", "q"), ("d", "x"), ("d", "x/build"), ("f", "x/build/y"),
-            ("f", "x/a"), ("d", "x/a2"), ("d", "x/a2/b"), ("f", "x/a2/b/c")]
+            ("f", "x/a"), ("d", "x/a2"), ("d", "x/a2/b"), ("f", "x/a2/b/c"),
+            # names that are not valid UTF-8 (surrogate-escaped here): matched in their lossy form, one U+FFFD per such byte
+            ("f", "bad\udcff.log"), ("d", "a\udcfe"), ("f", "a\udcfe/x.log"), ("f", "\udcff")]
 
 
 def hx(s):
-    return s.encode().hex() or "-"
+    return s.encode("utf-8", "surrogateescape").hex() or "-"
 
 
 def spec_of(rules):
@@ -61,7 +63,7 @@ def gen_decisions(seed, tier):
 
 def gen_world(r):
     """a tree (dirs before files), CLI rules and size bounds"""
-    names = ["a", "b", "build", "src", "x.log", "b.txt", "a.rs", "c", ".hid", "a b", "ü", "log", "aa"]
+    names = ["a", "b", "build", "src", "x.log", "b.txt", "a.rs", "c", ".hid", "a b", "ü", "log", "aa", "b\udcff.log", "\udcfe"]
     dirs = set()
     spec = []
     for _ in range(r.randrange(1, 6)):
@@ -179,7 +181,7 @@ def run(tier, seed):
             if kv["wf"] != "1":
                 wfbad += 1
             sel = [] if kv["sel"] == "-" else [int(i) for i in kv["sel"].split(",")]
-            want = sorted(bytes.fromhex(ents[i].split(":")[1]).decode() for i in sel)
+            want = sorted(bytes.fromhex(ents[i].split(":")[1]).decode("utf-8", "surrogateescape") for i in sel)
             if len(samples) < 3:
                 samples.append({"rules": rules, "min": mn, "max": mx, "source_entries": len(ents), "transferred": got})
             if want and len(want) < len(ents):
@@ -191,7 +193,7 @@ def run(tier, seed):
     res.cov["worlds"] = wrun
     res.cov["worlds_listing_not_wellformed"] = wfbad
     res.cov["distinct_nontrivial"] = len(wnontrivial) + distinct
-    res.cov["rule"] = ("(A) every single rule of a 40-pattern pool in 6 textual forms + seeded random rule lists (length 2-4, CLI order) x a 47-path universe, "
+    res.cov["rule"] = ("(A) every single rule of a 40-pattern pool in 6 textual forms + seeded random rule lists (length 2-4, CLI order) x a 51-path universe (four names that are not valid UTF-8), "
                        "decision vectors compared model vs FilterEngine; (B) generated trees x CLI rules x size bounds through the real binary; a world is "
                        "non-trivial when the selected set is a proper non-empty subset; distinct = distinct decision vectors + distinct (rules,bounds,selected) worlds")
     res.cov["samples"] = [dec[0][1][:200], dec[300][1][:200]] + samples
